@@ -930,12 +930,13 @@ func makeDataConditionFilter(dataSources []func(s *stream) ([][2]int, [2][]byte,
 		}
 		if evaluatedDataSources == 0 {
 			for _, c := range conditions {
-				if !c.Inverted {
-					// at least one condition is not inverted, it is not a match...
+				if !c.Inverted || len(c.Elements) > 1 {
+					// at least one condition is not inverted or needs its
+					// leading elements to match, it is not a match...
 					return false, nil
 				}
 			}
-			// only inverted conditions exist, since no data sources had data, this is a match
+			// only inverted single element conditions exist, since no data sources had data, this is a match
 			return true, nil
 		}
 		for pgIdx, pg := range progressGroups {
